@@ -233,6 +233,23 @@ fn verify_message_bytes(
     Ok(())
 }
 
+/// The same for a password-encrypted message: decrypt, read, verify.
+fn verify_encrypted_message_bytes(bytes: &[u8], payload: &[u8], keys: &[&dyn VerifyingKey]) -> Result<(), String> {
+    let msg = es(Message::from_bytes(bytes))?;
+    let mut msg = es(msg.decrypt_with_password(&Password::from("c06-route")))?;
+    let got = read_all(&mut msg, false)?;
+    if got != payload {
+        return Err(format!("payload read back as \"{}\"", esc(&got)));
+    }
+    let res = es(msg.verify_nested(keys))?;
+    for (i, r) in res.iter().enumerate() {
+        if !matches!(r, VerificationResult::Valid(_)) {
+            return Err(format!("signature for key {i} not valid"));
+        }
+    }
+    Ok(())
+}
+
 fn extract_signatures(bytes: &[u8]) -> Vec<Signature> {
     PacketParser::new(bytes)
         .filter_map(|p| match p {
@@ -425,6 +442,61 @@ fn run(c: &Case) -> Outcome {
                     }
                 }
                 Err(e) => a.fail(&sname, "to_vec", e),
+            }
+            // the encrypting builders, signers added before and after the transition
+            if p.len() <= 3 || p.len() >= 500 {
+                use pgp::crypto::{aead::{AeadAlgorithm, ChunkSize}, sym::SymmetricKeyAlgorithm};
+                use pgp::types::StringToKey;
+                for v2 in [false, true] {
+                    for early in [true, false] {
+                        let mut b = MessageBuilder::from_bytes("", c.p.clone());
+                        if utf8 {
+                            let _ = b.data_mode(DataMode::Utf8);
+                        }
+                        if text_sig {
+                            b.sign_text();
+                        }
+                        if early {
+                            b.sign(key, Password::empty(), hash);
+                            if two {
+                                b.sign(key2, Password::empty(), HashAlgorithm::Sha256);
+                            }
+                        }
+                        let s2k = StringToKey::new_iterated(crate::engine::rng(6), HashAlgorithm::Sha256, 0);
+                        let pw = Password::from("c06-route");
+                        let built = if v2 {
+                            let mut e = b.seipd_v2(crate::engine::rng(7), SymmetricKeyAlgorithm::AES128, AeadAlgorithm::Ocb, ChunkSize::default());
+                            if !early {
+                                e.sign(key, Password::empty(), hash);
+                                if two {
+                                    e.sign(key2, Password::empty(), HashAlgorithm::Sha256);
+                                }
+                            }
+                            match e.encrypt_with_password(crate::engine::rng(8), s2k, &pw).map(|_| ()) {
+                                Ok(()) => e.to_vec(crate::engine::rng(5)),
+                                Err(x) => Err(x),
+                            }
+                        } else {
+                            let mut e = b.seipd_v1(crate::engine::rng(7), SymmetricKeyAlgorithm::AES128);
+                            if !early {
+                                e.sign(key, Password::empty(), hash);
+                                if two {
+                                    e.sign(key2, Password::empty(), HashAlgorithm::Sha256);
+                                }
+                            }
+                            match e.encrypt_with_password(s2k, &pw).map(|_| ()) {
+                                Ok(()) => e.to_vec(crate::engine::rng(5)),
+                                Err(x) => Err(x),
+                            }
+                        };
+                        let route = format!("seipd_v{}({})->decrypt->Message::verify", if v2 { 2 } else { 1 }, if early { "signers added before" } else { "signers added after" });
+                        match built {
+                            Ok(bytes) => a.check(&sname, &route, verify_encrypted_message_bytes(&bytes, p, &keys)),
+                            // (a refusal to sign with this key / hash pair shows here)
+                            Err(e) => a.fail(&sname, "to_vec", e),
+                        }
+                    }
+                }
             }
             if !two {
                 let mut b = MessageBuilder::from_bytes("", c.p.clone());
@@ -669,7 +741,7 @@ pub fn check(ctx: &Ctx) {
     ctx.run_space(
         "sign_x_verify",
         true,
-        "payloads: all strings over {CR,LF,TAB,SP,'-','a',e-acute,NUL} up to length 4 (thorough 5) and over {CR,LF,x} up to length 9 (10); for each: detached binary/text, SignatureConfig::sign with every 2-piece delivery, MessageBuilder (binary, text sig over binary literal, text sig over utf8 literal; 1 and 2 signers; binary and armored), cleartext framework through sign / new (hash under test) / new_many (two signers, two hashes) -- each verified through every applicable interface (direct, after to_bytes/from_bytes, after armor, inline after read_to_end and after 1-byte reads, signature packet extracted from a message and verified as detached, detached signature wrapped as a prefixed-signature message). Every payload with Ed25519 v4 and v6 (SHA-256/512 alternating); ECDSA P-256 v4/v6, EdDSA-legacy, RSA-2048, Ed448 on the short payloads; plus dash/armor-boundary lines (alone, as second line, with final newline), plus payloads x^n.w (w over {CR,LF,x}, |w|<=2) ending exactly at / one past 512, 1024, 8192. evaluations = (sign,verify) pairs.",
+        "payloads: all strings over {CR,LF,TAB,SP,'-','a',e-acute,NUL} up to length 4 (thorough 5) and over {CR,LF,x} up to length 9 (10); for each: detached binary/text, SignatureConfig::sign with every 2-piece delivery, MessageBuilder (binary, text sig over binary literal, text sig over utf8 literal; 1 and 2 signers; binary and armored; for the shortest and the boundary payloads also through seipd_v1 / seipd_v2 with the signers added before and after the transition), cleartext framework through sign / new (hash under test) / new_many (two signers, two hashes) -- each verified through every applicable interface (direct, after to_bytes/from_bytes, after armor, inline after read_to_end and after 1-byte reads, signature packet extracted from a message and verified as detached, detached signature wrapped as a prefixed-signature message). Every payload with Ed25519 v4 and v6 (SHA-256/512 alternating); ECDSA P-256 v4/v6, EdDSA-legacy, RSA-2048, Ed448 on the short payloads; plus dash/armor-boundary lines (alone, as second line, with final newline), plus payloads x^n.w (w over {CR,LF,x}, |w|<=2) ending exactly at / one past 512, 1024, 8192. evaluations = (sign,verify) pairs.",
         cases.into_par_iter(),
         run,
     );
